@@ -42,6 +42,19 @@
 (*   that found the lapsed, never swept entry of an earlier registration of t reclaims it in a    *)
 (*   second step - by then the key may hold a NEW live record: deviation "evictedLive".  As-is    *)
 (*   lookups are read-only (LookupPure) and lapsed entries are simply invisible.                  *)
+(*   Shutdown(n)     the source node's SessionManager is closed: its context is cancelled, every   *)
+(*                   bridge on n ends and runBridgeLifecycle removes the records - with that        *)
+(*                   CANCELLED context (RemoveWaitingTunnel(s.Ctx(), id)).  As-is the removal does  *)
+(*                   not look at the context.  HonourContext = TRUE models the design that skips    *)
+(*                   storage calls on a finished context: the records stay - deviation "notRemoved".*)
+(*   Arrive(m,t)     (Mode "arrive") the target's TunnelOpen arrives at node m and goes through the  *)
+(*                   session layer: handleTunnelOpen -> LookupWaitingTunnel ->                      *)
+(*                   handleCrossNodeTargetConnection -> lookupTunnelRouting -> forwardToSourceNode   *)
+(*                   (dial the source node's address).  Its decision is the lookup's; on a forward   *)
+(*                   the target connection is held at m until TargetGone(m,t), after which m         *)
+(*                   REMEMBERS the id as ended (closedTunnels, never purged).  RejectSeenIds = TRUE  *)
+(*                   models the design that refuses ids a node remembers as ended - a re-used id     *)
+(*                   that is legitimately waiting again is then refused: deviation "refusedReused".  *)
 (*   Tick            the waiting period elapses (key TTL and ExpiresAt lapse together)        *)
 (*   LateLookup(m,t) the same lookup for an id that is not (any more) waiting: a late or      *)
 (*                   replayed TunnelOpen                                                      *)
@@ -73,6 +86,8 @@ CONSTANTS Nodes, Tunnels,
           LifecycleFirst,
           SkipLocalTarget,   \* the design that does not publish a record when the target is connected to the source node
           EvictingLookup,    \* the design whose lookups reclaim lapsed entries in a second, unsynchronised step
+          HonourContext,     \* the design whose routing-table calls return early on a finished context
+          RejectSeenIds,     \* the design whose arrival path refuses tunnel ids the node remembers as ended
           Emit, Only    \* Only = "dev": print a behaviour only when its last event sets the deviation
 
 VARIABLES shape,
@@ -89,11 +104,14 @@ VARIABLES shape,
           stale,    \* tunnel -> a lapsed, unswept entry of an earlier registration is still under the key (memory)
           pe,       \* tunnel -> a lookup saw that stale entry and has its reclaim pending
           lkWrote,  \* ghost: some lookup modified the store
+          up,       \* node -> its SessionManager is running
+          held,     \* tunnel -> nodes holding a forwarded target connection of it
+          seen,     \* node -> tunnel ids it remembers as ended (closedTunnels)
           nreg,     \* tunnel -> registrations so far
           clock, hist
-vars    == <<shape, rec, addr, bridge, flight, rmpend, dev, stale, pe, lkWrote, nreg, clock, hist>>
-view    == <<shape, rec, addr, bridge, flight, rmpend, dev, stale, pe, lkWrote, nreg>>
-genview == <<shape, rec, addr, bridge, flight, rmpend, dev, stale, pe, lkWrote, nreg, clock>>
+vars    == <<shape, rec, addr, bridge, flight, rmpend, dev, stale, pe, lkWrote, up, held, seen, nreg, clock, hist>>
+view    == <<shape, rec, addr, bridge, flight, rmpend, dev, stale, pe, lkWrote, up, held, seen, nreg>>
+genview == <<shape, rec, addr, bridge, flight, rmpend, dev, stale, pe, lkWrote, up, held, seen, nreg, clock>>
 
 NoRec    == [node |-> "-", ver |-> 0, ttl |-> 0]
 NoBridge == [on |-> FALSE, node |-> "-", ver |-> 0, left |-> 0]
@@ -107,6 +125,7 @@ Init == /\ shape \in Shapes
         /\ rmpend = [t \in Tunnels |-> "-"]
         /\ dev = [t \in Tunnels |-> {}]
         /\ stale = [t \in Tunnels |-> FALSE] /\ pe = [t \in Tunnels |-> FALSE] /\ lkWrote = FALSE
+        /\ up = [n \in Nodes |-> TRUE] /\ held = [t \in Tunnels |-> {}] /\ seen = [n \in Nodes |-> {}]
         /\ nreg = [t \in Tunnels |-> 0]
         /\ clock = 0 /\ hist = <<>>
 
@@ -116,7 +135,7 @@ LogL(a, n, t, loc) == /\ hist' = Append(hist, [a |-> a, n |-> n, t |-> t, loc |-
                       /\ Out(hist')
 Log(a, n, t) == LogL(a, n, t, "-")
 Locs == {"same", "other", "none"}
-EV == <<stale, pe, lkWrote>>
+EV == <<stale, pe, lkWrote, up, held, seen>>
 
 \* ---- the store as the backend presents it, and the decoding type switch --------------------
 BackendValue(r) == [shape |-> shape, body |-> r]
@@ -139,15 +158,15 @@ Announce(n) ==
 Free(t) == ~bridge[t].on /\ ~flight[t].p /\ rmpend[t] = "-"      \* no bridge for t, nothing of an earlier one pending
 
 Register(n, t, loc) ==
-  /\ Mode = "atomic"
-  /\ addr[n] /\ Free(t) /\ nreg[t] < MaxReg
+  /\ Mode \in {"atomic", "arrive"}
+  /\ up[n] /\ addr[n] /\ Free(t) /\ nreg[t] < MaxReg
   /\ nreg' = [nreg EXCEPT ![t] = @ + 1]
   /\ LET skip == SkipLocalTarget /\ loc = "same" IN
      /\ rec' = IF skip THEN rec ELSE [rec EXCEPT ![t] = [node |-> n, ver |-> nreg[t] + 1, ttl |-> TTL]]
      /\ dev' = [dev EXCEPT ![t] = IF skip THEN {"notPublished"} ELSE {}]
      /\ stale' = IF skip THEN stale ELSE [stale EXCEPT ![t] = FALSE]          \* the Set overwrites the lapsed entry
   /\ bridge' = [bridge EXCEPT ![t] = [on |-> TRUE, node |-> n, ver |-> nreg[t] + 1, left |-> TTL]]
-  /\ UNCHANGED <<addr, flight, rmpend, clock, pe, lkWrote>>
+  /\ UNCHANGED <<addr, flight, rmpend, clock, pe, lkWrote, up, held, seen>>
   /\ LogL("Register", n, t, loc)
 
 Waiting(t) == bridge[t].on /\ ~flight[t].p /\ bridge[t].left > 0
@@ -155,18 +174,50 @@ Waiting(t) == bridge[t].on /\ ~flight[t].p /\ bridge[t].left > 0
 \* lookups do not change the modelled state (deleting an expired key is a no-op here: key TTL
 \* and ExpiresAt lapse together)
 LookupEffect == UNCHANGED <<rec, addr, bridge, flight, rmpend, dev, nreg, clock, EV>>
-Lookup(m, t)     == Waiting(t)  /\ LookupEffect /\ Log("Lookup", m, t)
-LateLookup(m, t) == ~Waiting(t) /\ LookupEffect /\ Log("Lookup", m, t)
+Lookup(m, t)     == up[m] /\ Waiting(t)  /\ LookupEffect /\ Log("Lookup", m, t)
+LateLookup(m, t) == up[m] /\ ~Waiting(t) /\ LookupEffect /\ Log("Lookup", m, t)
 
 Remove(n, t) ==
-  /\ Mode = "atomic"
-  /\ bridge[t].on /\ bridge[t].node = n
+  /\ Mode \in {"atomic", "arrive"}
+  /\ up[n] /\ bridge[t].on /\ bridge[t].node = n
   /\ rec' = [rec EXCEPT ![t] = NoRec]
   /\ bridge' = [bridge EXCEPT ![t] = NoBridge]
   /\ dev' = [dev EXCEPT ![t] = {}]
   /\ stale' = [stale EXCEPT ![t] = FALSE]
-  /\ UNCHANGED <<addr, flight, rmpend, nreg, clock, pe, lkWrote>>
+  /\ UNCHANGED <<addr, flight, rmpend, nreg, clock, pe, lkWrote, up, held, seen>>
   /\ Log("Remove", n, t)
+
+\* the node's SessionManager is closed: its tunnels end, their records are removed with the
+\* cancelled context
+Shutdown(n) ==
+  /\ Mode = "atomic" /\ up[n] /\ \E t \in Tunnels : bridge[t].on /\ bridge[t].node = n
+  /\ up' = [up EXCEPT ![n] = FALSE]
+  /\ LET mine == {t \in Tunnels : bridge[t].on /\ bridge[t].node = n} IN
+     /\ bridge' = [t \in Tunnels |-> IF t \in mine THEN NoBridge ELSE bridge[t]]
+     /\ rec' = IF HonourContext THEN rec ELSE [t \in Tunnels |-> IF t \in mine THEN NoRec ELSE rec[t]]
+     /\ stale' = IF HonourContext THEN stale ELSE [t \in Tunnels |-> stale[t] /\ t \notin mine]
+     /\ dev' = [t \in Tunnels |-> IF t \in mine THEN (IF HonourContext /\ rec[t].ttl > 0 THEN {"notRemoved"} ELSE {}) ELSE dev[t]]
+  /\ UNCHANGED <<addr, flight, rmpend, nreg, clock, pe, lkWrote, held, seen>>
+  /\ Log("Shutdown", n, "-")
+
+\* ---- the target's arrival through the session layer (Mode "arrive") ---------------------------
+ArriveRes(m, t) == IF RejectSeenIds /\ t \in seen[m] THEN [r |-> "refused", node |-> "-"]
+                   ELSE LET l == LookupRes(t) IN
+                        IF l.r = "found" /\ l.addr THEN [r |-> "forward", node |-> l.node] ELSE [r |-> "refused", node |-> "-"]
+Arrive(m, t) ==
+  /\ Mode = "arrive" /\ up[m]
+  /\ rec[t].ttl > 0 => rec[t].node # m         \* arrivals at the source node itself take the local-bridge path (not modelled)
+  /\ held' = IF ArriveRes(m, t).r = "forward" THEN [held EXCEPT ![t] = @ \cup {m}] ELSE held
+  /\ dev' = IF RejectSeenIds /\ t \in seen[m] /\ Waiting(t) THEN [dev EXCEPT ![t] = @ \cup {"refusedReused"}] ELSE dev
+  /\ UNCHANGED <<rec, addr, bridge, flight, rmpend, nreg, clock, stale, pe, lkWrote, up, seen>>
+  /\ Log("Arrive", m, t)
+
+TargetGone(m, t) ==
+  /\ Mode = "arrive" /\ m \in held[t]
+  /\ held' = [held EXCEPT ![t] = @ \ {m}]
+  /\ seen' = [seen EXCEPT ![m] = @ \cup {t}]
+  /\ UNCHANGED <<rec, addr, bridge, flight, rmpend, dev, nreg, clock, stale, pe, lkWrote, up>>
+  /\ Log("TargetGone", m, t)
 
 \* ---- the same at the real call sites, step by step ------------------------------------------
 BridgeCreated(n, t) ==
@@ -184,7 +235,7 @@ RecordSet(n, t) ==
   /\ flight' = [flight EXCEPT ![t] = NoFlight]
   /\ dev' = [dev EXCEPT ![t] = IF flight[t].left > 0 /\ ~bridge[t].on /\ rmpend[t] = "-" THEN {"lateSet"} ELSE {}]   \* ended AND already cleaned up
   /\ stale' = [stale EXCEPT ![t] = FALSE]
-  /\ UNCHANGED <<bridge, pe, lkWrote>>
+  /\ UNCHANGED <<bridge, pe, lkWrote, up, held, seen>>
   /\ UNCHANGED <<addr, rmpend, nreg, clock>>
   /\ Log("Set", n, t)
 
@@ -203,14 +254,14 @@ RecordRemoved(n, t) ==
   /\ rmpend' = [rmpend EXCEPT ![t] = "-"]
   /\ dev' = [dev EXCEPT ![t] = {}]
   /\ stale' = [stale EXCEPT ![t] = FALSE]
-  /\ UNCHANGED <<addr, bridge, flight, nreg, clock, pe, lkWrote>>
+  /\ UNCHANGED <<addr, bridge, flight, nreg, clock, pe, lkWrote, up, held, seen>>
   /\ Log("Removed", n, t)
 
 \* ---- the evicting lookup (memory backend, EvictingLookup only) --------------------------------
 EvictScan(m, t) ==
   /\ EvictingLookup /\ shape = "identity" /\ stale[t] /\ ~pe[t]
   /\ pe' = [pe EXCEPT ![t] = TRUE]
-  /\ UNCHANGED <<rec, addr, bridge, flight, rmpend, dev, stale, lkWrote, nreg, clock>>
+  /\ UNCHANGED <<rec, addr, bridge, flight, rmpend, dev, stale, lkWrote, nreg, clock, up, held, seen>>
   /\ Log("EvictScan", m, t)
 
 EvictWrite(t) ==
@@ -219,7 +270,7 @@ EvictWrite(t) ==
   /\ rec' = [rec EXCEPT ![t] = NoRec] /\ stale' = [stale EXCEPT ![t] = FALSE]
   /\ lkWrote' = TRUE
   /\ dev' = IF rec[t].ttl > 0 THEN [dev EXCEPT ![t] = @ \cup {"evictedLive"}] ELSE dev
-  /\ UNCHANGED <<addr, bridge, flight, rmpend, nreg, clock>>
+  /\ UNCHANGED <<addr, bridge, flight, rmpend, nreg, clock, up, held, seen>>
   /\ Log("EvictWrite", "-", t)
 
 Tick ==
@@ -230,14 +281,15 @@ Tick ==
   /\ dev' = [t \in Tunnels |-> IF rec[t].ttl > 1 THEN dev[t] ELSE dev[t] \ {"lateSet"}]
   /\ stale' = [t \in Tunnels |-> stale[t] \/ rec[t].ttl = 1]        \* a lapsed entry stays in the map until overwritten or removed
   /\ flight' = [t \in Tunnels |-> IF flight[t].p /\ flight[t].left > 0 THEN [flight[t] EXCEPT !.left = @ - 1] ELSE flight[t]]
-  /\ UNCHANGED <<addr, rmpend, nreg, pe, lkWrote>>
+  /\ UNCHANGED <<addr, rmpend, nreg, pe, lkWrote, up, held, seen>>
   /\ Log("Tick", "-", "-")
 
 Next == \/ Tick
-        \/ \E n \in Nodes : Announce(n)
+        \/ \E n \in Nodes : Announce(n) \/ Shutdown(n)
         \/ \E n \in Nodes, t \in Tunnels :
              \/ \E loc \in Locs : Register(n, t, loc)
              \/ Lookup(n, t) \/ LateLookup(n, t) \/ Remove(n, t) \/ EvictScan(n, t) \/ EvictWrite(t)
+             \/ Arrive(n, t) \/ TargetGone(n, t)
              \/ BridgeCreated(n, t) \/ RecordSet(n, t) \/ TunnelEnds(n, t) \/ RecordRemoved(n, t)
 Spec == Init /\ [][Next]_vars
 Bounded == Len(hist) <= MaxHist
@@ -257,6 +309,16 @@ LookupGone      == \A t \in Tunnels : (Settled(t) \/ Lapsed(t)) => LookupRes(t).
 LookupGoneOrDev == \A t \in Tunnels : (Settled(t) \/ Lapsed(t)) => (LookupRes(t).r # "found" \/ dev[t] # {})
 LookupExactOrDev == \A t \in Tunnels : Waiting(t) => (dev[t] # {} \/
                  LookupRes(t) = [r |-> "found", node |-> bridge[t].node, ver |-> bridge[t].ver, addr |-> TRUE])
+\* a target arriving at any running node other than the source node is forwarded to the source node
+\* while the tunnel waits, and refused otherwise
+ArriveExact == \A t \in Tunnels, m \in Nodes :
+                 (up[m] /\ (rec[t].ttl > 0 => rec[t].node # m)) =>
+                    IF Waiting(t) THEN ArriveRes(m, t) = [r |-> "forward", node |-> bridge[t].node]
+                    ELSE (Settled(t) \/ Lapsed(t)) => ArriveRes(m, t).r = "refused"
+ArriveExactOrDev == \A t \in Tunnels, m \in Nodes :
+                 (up[m] /\ (rec[t].ttl > 0 => rec[t].node # m) /\ dev[t] = {}) =>
+                    IF Waiting(t) THEN ArriveRes(m, t) = [r |-> "forward", node |-> bridge[t].node]
+                    ELSE (Settled(t) \/ Lapsed(t)) => ArriveRes(m, t).r = "refused"
 NoDev           == \A t \in Tunnels : dev[t] = {}
 LookupPure      == ~lkWrote
 
